@@ -7,41 +7,41 @@
 From Coq Require Import ZArith.
 From Redo Require Import Base.Bytes Build.Model Build.LocalProofs.
 
-Theorem C01_never_built_is_dirty : forall fuel runid w c f mx seen,
+Theorem C01_never_built_is_dirty : forall fuel runid w c f r mx seen,
   existsb (Nat.eqb f) seen = false ->
-  r_changed (load runid (dbs w) f) = None ->
-  is_dirty (S fuel) runid w c f mx seen = Ret (VDirty, w, c, []).
+  r_changed r = None ->
+  is_dirty (S fuel) runid w c f r mx seen = Ret (VDirty, w, c, []).
 Proof. exact is_dirty_never_built. Qed.
-Check C01_never_built_is_dirty : forall fuel runid w c f mx seen,
+Check C01_never_built_is_dirty : forall fuel runid w c f r mx seen,
   existsb (Nat.eqb f) seen = false ->
-  r_changed (load runid (dbs w) f) = None ->
-  is_dirty (S fuel) runid w c f mx seen = Ret (VDirty, w, c, []).
+  r_changed r = None ->
+  is_dirty (S fuel) runid w c f r mx seen = Ret (VDirty, w, c, []).
 Print Assumptions C01_never_built_is_dirty.
 
-Theorem C01_failed_is_dirty : forall fuel runid w c f mx seen,
+Theorem C01_failed_is_dirty : forall fuel runid w c f r mx seen,
   existsb (Nat.eqb f) seen = false ->
-  r_failed (load runid (dbs w) f) <> None ->
-  is_dirty (S fuel) runid w c f mx seen = Ret (VDirty, w, c, []).
+  r_failed r <> None ->
+  is_dirty (S fuel) runid w c f r mx seen = Ret (VDirty, w, c, []).
 Proof. exact is_dirty_failed. Qed.
-Check C01_failed_is_dirty : forall fuel runid w c f mx seen,
+Check C01_failed_is_dirty : forall fuel runid w c f r mx seen,
   existsb (Nat.eqb f) seen = false ->
-  r_failed (load runid (dbs w) f) <> None ->
-  is_dirty (S fuel) runid w c f mx seen = Ret (VDirty, w, c, []).
+  r_failed r <> None ->
+  is_dirty (S fuel) runid w c f r mx seen = Ret (VDirty, w, c, []).
 Print Assumptions C01_failed_is_dirty.
 
 (* a dependency that changed in a later run than its consumer was built or
    checked makes the consumer dirty *)
-Theorem C01_newer_dep_is_dirty : forall fuel runid w c f mx seen chg,
+Theorem C01_newer_dep_is_dirty : forall fuel runid w c f r mx seen chg,
   existsb (Nat.eqb f) seen = false ->
-  r_failed (load runid (dbs w) f) = None ->
-  r_changed (load runid (dbs w) f) = Some chg -> (mx < chg)%Z ->
-  is_dirty (S fuel) runid w c f mx seen = Ret (VDirty, w, c, []).
+  r_failed r = None ->
+  r_changed r = Some chg -> (mx < chg)%Z ->
+  is_dirty (S fuel) runid w c f r mx seen = Ret (VDirty, w, c, []).
 Proof. exact is_dirty_newer. Qed.
-Check C01_newer_dep_is_dirty : forall fuel runid w c f mx seen chg,
+Check C01_newer_dep_is_dirty : forall fuel runid w c f r mx seen chg,
   existsb (Nat.eqb f) seen = false ->
-  r_failed (load runid (dbs w) f) = None ->
-  r_changed (load runid (dbs w) f) = Some chg -> (mx < chg)%Z ->
-  is_dirty (S fuel) runid w c f mx seen = Ret (VDirty, w, c, []).
+  r_failed r = None ->
+  r_changed r = Some chg -> (mx < chg)%Z ->
+  is_dirty (S fuel) runid w c f r mx seen = Ret (VDirty, w, c, []).
 Print Assumptions C01_newer_dep_is_dirty.
 
 (* The full statement, in terms of the model (NOT proved here). *)
